@@ -1,6 +1,35 @@
 //! Further operations (rates, table conversion, formatting, serde, SI prefixes).
+#![allow(unused_imports)]
 use crate::*;
+use quantities::SIPrefix;
 
-pub fn dispatch(_op: &str, _a: &[&str]) -> Option<String> {
-    None
+fn si(a: &[&str]) -> String {
+    match a[0] {
+        "iter" => SIPrefix::iter()
+            .map(|p| format!("{:?}:h{}:h{}:{}", p, hex(p.name()), hex(p.abbr()), p.exp()))
+            .collect::<Vec<_>>()
+            .join(" "),
+        "exp" => {
+            let n: i64 = a[1].parse().expect("int");
+            if n < i8::MIN as i64 || n > i8::MAX as i64 {
+                return "none".into();
+            }
+            match SIPrefix::from_exp(n as i8) {
+                Some(p) => format!("{:?}", p),
+                None => "none".into(),
+            }
+        }
+        "abbr" => match SIPrefix::from_abbr(&unhex(a[1])) {
+            Some(p) => format!("{:?}", p),
+            None => "none".into(),
+        },
+        _ => "bad-op".into(),
+    }
+}
+
+pub fn dispatch(op: &str, a: &[&str]) -> Option<String> {
+    match op {
+        "si" => Some(si(a)),
+        _ => None,
+    }
 }
